@@ -132,8 +132,10 @@ impl RestorerJob {
     pub fn increase_crash_counters(&mut self, worker_id: WorkerId) {
         for task in self.tasks.values_mut() {
             match &task.state {
+                // As in the scheduler, only the loss of the worker that executes the task
+                // (the root of a multi-node task) counts as a crash of the task
                 JobTaskState::Running { started_data }
-                    if started_data.worker_ids.contains(&worker_id) =>
+                    if started_data.worker_ids.first() == Some(&worker_id) =>
                 {
                     task.crash_counter += 1;
                 }
